@@ -2,17 +2,21 @@
 from . import common as C
 
 MANIFEST = dict(
-   technique="Lean 4 proof of the path laws over the container model with ABSTRACT members (per-container prefix law, composed by induction on nesting depth: resolution, single-fault locality, completeness) + differential correspondence on generated nestings (members of every kind) with planted single faults and with k = 2,3 faults planted side by side at three levels, on random nestings and on every parent kind x child kind chain of depth >= 3; discriminated unions over every kind of option (a corrupted discriminator is a fault of the union's value), container-level Refine / Overwrite checks (Cont.runOw), go/ast structure fingerprints of the transcribed Go functions",
-   text="Theorems: c05_paths_from_members (every issue a container reports is a container-level issue at a location of its own, or a member's issue with the member's location put in front — per container, all member environments), c05_path_resolves (by induction on nesting depth: every reported path resolves in the input or reaches the parent of a missing key, given that the leaves' paths do), c05_single_fault (if all asked members but those under one location accept, every path is that location or a prefix/extension inside it), c05_multi_fault (the same for any set of faulty locations, whatever the number of issues each faulty member reports), c05_tuple_all_issues / c05_struct_all_issues / c05_object_all_issues (ALL issues a member reports for one element / field appear, in order, each with the location put in front: none lost, none carrying a sibling's path), c05_nested_two_issues (object > tuple > object with two bad fields via parseF), c05_complete_patched with witnesses c05_slice_drops_child_path / c05_record_drops_key / c05_array_drops_child_path for today's code. The model is tied to /repo by the C02 nestings with planted faults (one, or 2-3 side by side: sibling members of the top container, sibling elements of one member, or inside ONE element of a member so that it reports >= 2 issues): the reported path set must equal the model's (predicted from the members' own answers) and be contained in the ideal complete paths; resolution, nearness to a planted location and coverage of the planted locations are also evaluated directly on the implementation's output.",
-   note="Trusted: Lean kernel; axioms propext/Classical.choice/Quot.sound only; the Go harness (its path walker decides whether an int is an index or a key by walking the input), token codec and comparer. Each nesting level is judged against its own members' reported paths (the composed law is the Lean theorem). Hand-transcribed model validated on generated cases; same unmodelled representations as C02. array wraps a failing element in one invalid_element issue at [i] and drops the inner path: kept as known finding (the suite pins invalid_element).",
+   technique="Lean 4 proof of the path laws over the container model with ABSTRACT leaf members: a per-container law that records WHICH member is asked at WHICH position (c05_from_asked), composed by induction over the fuel of the recursive nested parse Cont.parseF into resolution at any depth and single-fault locality for a fault location that is a full path of any depth + differential correspondence on generated nestings (members of every kind) with planted single faults and with k = 2,3 faults planted side by side at three levels, on random nestings and on every parent kind x child kind chain of depth >= 3; discriminated unions over every kind of option (a corrupted discriminator is a fault of the union's value), container-level Refine / Overwrite checks (Cont.runOw), go/ast structure fingerprints of the transcribed Go functions",
+   text="Proved (Proofs/C05Nest.lean, all member environments, the code of /repo HEAD: slice and record paths prefixed). c05_from_asked: every issue a container reports is (a) at its root, (b) the wrapper of an element THE asked member rejects (array), (c) a missing / explicitly-nil own key, or (d) an issue of THE member asked at that segment about the part of the input there (Asked), of THE key schema asked about that key (AskedKey), or of a member asked about the input itself (AskedSame: intersection sides, the option the discriminator selects, a lazy target), with that location in front and the code kept. c05_resolves_nested (induction over the fuel of parseF, any depth; only the LEAVES' paths are assumed to resolve): every path reaches a value of the input, or - for a missing-key issue ONLY (invalid_type whose last segment is a key the reached keyed container lacks: RoPk / NoKey) - the parent container; side conditions VisitOK: keys asked about are atoms, and no Set schema is asked about a SLICE (exclusion with witness c05_set_on_slice_false: the model files a slice element's issue under the element's VALUE, not its index). c05_fault_nested / c05_single_fault_nested (induction over the fuel of parseF): for a location L that is a full path of any depth, if at every container on the way every member asked at ANOTHER segment accepts what IT is asked (hypotheses speak of the member asked only: OffFault), no other own key is missing, and the schema asked at L rejects the value there as a whole, then EVERY reported path is L or a prefix of L (leaves = schemas reporting at their own root). Hypotheses are shown inhabited on the heterogeneous Object{a: String(), b: Int()} with b corrupted, at depth 1 and at depth 2 below Object{p: …} (exOff, exOff2 + examples). Older one-level theorems kept: c05_paths_from_members, c05_path_resolves, c05_single_fault, c05_multi_fault (weaker: they quantify over every member id; superseded by the above), c05_tuple_all_issues / c05_struct_all_issues / c05_object_all_issues / c05_complete_patched (COMPLETENESS - all issues of one element / field appear, in order, behind its location - is proved for slice, tuple, struct, object fields, map values (c05_map_all_issues) and set elements (c05_set_all_issues) ONLY; for map keys, record (which reports only the FIRST rejected value in map order), object catch-all keys, union / intersection / discriminated union / lazy completeness is decided by the run only; array: open finding incomplete-path:array, witness c05_array_drops_child_path), witnesses c05_slice_drops_child_path / c05_record_drops_key for the code before 489851f / 12b24c0. Decided by the run only: that the hand-written container model is the code (each nesting LEVEL is executed by the driver through Cont.runOw on the members' recorded answers and compared with the reported path set; the recursion parseF itself is not executed by the driver), completeness for the kinds listed, multi-fault coverage, and resolution / nearness evaluated directly on the implementation's output.",
+   note="Trusted: Lean kernel; axioms propext/Classical.choice/Quot.sound only; the Go harness (its path walker decides whether an int is an index or a key by walking the input), token codec and comparer. Each nesting level is judged against its own members' reported paths; the composition over levels is the Lean induction over parseF (c05_resolves_nested, c05_fault_nested). Hand-transcribed model validated on generated cases; same unmodelled representations as C02. array wraps a failing element in one invalid_element issue at [i] and drops the inner path: kept as known finding (the suite pins invalid_element).",
    design="DESIGN.md §5 C05; notes/C05.md")
 
-MODULES = ["Gozod.Proofs.C05"]
+MODULES = ["Gozod.Proofs.C05", "Gozod.Proofs.C05Nest"]
 THEOREMS = ["Gozod.C05." + t for t in [
     "c05_paths_from_members", "c05_path_resolves", "c05_single_fault", "c05_complete_patched",
     "c05_slice_drops_child_path", "c05_record_drops_key", "c05_array_drops_child_path",
     "c05_multi_fault", "tupleElems_block", "c05_tuple_all_issues", "structFields_block", "c05_struct_all_issues",
     "objectFields_block", "c05_object_all_issues", "c05_nested_two_issues",
+    # round 4c (audit H3, M1, M2): the member ASKED at each position is part of the structure; induction over the fuel of parseF
+    "c05_from_asked", "asked_child", "askedKey_child", "ownFault_where", "ropk_atom", "c05_resolves_level",
+    "errs_parseF_node", "c05_resolves_nested", "c05_fault_nested", "c05_single_fault_nested", "exOff", "exOff2", "c05_set_on_slice_false",
+    "mapEntries_block", "c05_map_all_issues", "setElems_block", "c05_set_all_issues",
 ]]
 
 def parse_obs(s):
